@@ -36,7 +36,7 @@ var pureLibs = map[string]bool{
 	"(*base64.Encoding).DecodeString": true, "metadata.Join": true, "(metadata.MD).Copy": true,
 	"metadata.NewIncomingContext": true, "context.WithTimeout": true, "context.WithCancel": true,
 	"(*sync.WaitGroup).Add": true, "(*sync.WaitGroup).Done": true, "(*sync.WaitGroup).Wait": true, "(*sync.Pool).Put": true,
-	"(http.Flusher).Flush": true, "(protoreflect.FieldDescriptors).ByJSONName": true, "(protoreflect.FieldDescriptors).ByName": true,
+	"(http.Flusher).Flush": true,
 	"(protoreflect.MessageDescriptor).Fields": true, "(protoreflect.List).Append": true, "(protoreflect.Message).Set": true,
 	"(protoreflect.ProtoMessage).ProtoReflect": true, "(Compressor).Name": true, "(proto.Message).ProtoReflect": true,
 	"(protoreflect.MethodDescriptor).IsStreamingClient": true, "(protoreflect.MethodDescriptor).IsStreamingServer": true,
@@ -59,13 +59,13 @@ func (c *FnCtx) callWrites(cc *ssa.CallCommon) []string {
 	if m := c.eng.libFor(name, cc); m != nil {
 		return m.writes
 	}
-	if fc := c.eng.contractFor(name); fc != nil && !fc.IsPart {
+	if fc := c.eng.contractFor(name); fc != nil && (!fc.IsPart || fc.Trusted) {
 		if fc.Pure {
 			return nil
 		}
 		return fc.Modifies
 	}
-	if pureLibs[name] {
+	if pureLibs[name] || c.eng.cs.Dets[name] != nil {
 		return nil
 	}
 	if name == "dynamic call" {
@@ -103,6 +103,13 @@ func (c *FnCtx) execCall(st *State, in ssa.Instruction, cc *ssa.CallCommon) Val 
 		}
 		args = append(args, recv)
 	}
+	if !cc.IsInvoke() {
+		if mc := localClosure(cc.Value); mc != nil {
+			for _, b := range mc.Bindings {
+				args = append(args, c.val(st, b))
+			}
+		}
+	}
 	for _, a := range cc.Args {
 		args = append(args, c.val(st, a))
 	}
@@ -117,8 +124,31 @@ func (c *FnCtx) execCall(st *State, in ssa.Instruction, cc *ssa.CallCommon) Val 
 		c.assumptions["library contract: "+name+" — "+m.desc] = true
 		return m.apply(c, st, in, cc, args)
 	}
-	if fc := c.eng.contractFor(name); fc != nil && !fc.IsPart {
+	if fc := c.eng.contractFor(name); fc != nil && (!fc.IsPart || fc.Trusted) {
 		return c.callContract(st, in, cc, name, fc, args, resT)
+	}
+	if d := c.eng.cs.Dets[name]; d != nil {
+		// declared deterministic: the result is an uninterpreted function of the arguments
+		var leaves []string
+		for _, a := range args {
+			leaves = append(leaves, flatten(a)...)
+		}
+		var sorts []string
+		for _, a := range args {
+			sorts = append(sorts, leafSorts(a)...)
+		}
+		v := c.freshVal(st, resT, "r."+sanitize(name))
+		want := c.eng.detApp(d, leaves, sorts)
+		got := flatten(v)
+		if len(got) != len(want) {
+			panic(specErr{fmt.Sprintf("det %s: declared kind %s does not fit the result of %s", d.Name, d.Kind, name)})
+		}
+		for i := range got {
+			c.assume(st, eq(got[i], want[i]))
+		}
+		c.assumptions["library contract: "+name+" is a pure, deterministic function of its arguments (no heap effect)"] = true
+		c.libResultFacts(st, name, v)
+		return v
 	}
 	// call of a function value: predicates over runes are modelled as an uninterpreted application
 	if name == "dynamic call" {
@@ -165,7 +195,12 @@ func (c *FnCtx) libResultFacts(st *State, name string, v Val) {
 func (c *FnCtx) callContract(st *State, in ssa.Instruction, cc *ssa.CallCommon, name string, fc *FuncContract, args []Val, resT types.Type) Val {
 	// parameter names of the callee
 	var pnames []string
+	nfv := 0
 	if f := c.eng.funcs[name]; f != nil {
+		for _, p := range f.FreeVars {
+			pnames = append(pnames, p.Name())
+			nfv++
+		}
 		for _, p := range f.Params {
 			pnames = append(pnames, p.Name())
 		}
@@ -180,18 +215,27 @@ func (c *FnCtx) callContract(st *State, in ssa.Instruction, cc *ssa.CallCommon, 
 			pnames = append(pnames, sig.Params().At(i).Name())
 		}
 	}
-	if len(fc.Params) == len(args) {
+	if len(fc.Params) == len(args) && nfv == 0 {
 		pnames = fc.Params
 	}
 	if len(pnames) != len(args) {
 		panic(unsupported("call %s: %d params vs %d args", name, len(pnames), len(args)))
 	}
 	vars := map[string]Val{}
+	fvs := map[string]VPtr{}
 	for i, n := range pnames {
+		if i < nfv {
+			p, ok := args[i].(VPtr)
+			if !ok {
+				panic(unsupported("call %s: captured variable %s is not a cell", name, n))
+			}
+			fvs[n] = p
+			continue
+		}
 		vars[n] = args[i]
 	}
 	pre := st.clone()
-	env := &Env{c: c, st: st, old: pre, vars: vars}
+	env := &Env{c: c, st: st, old: pre, vars: vars, fvs: fvs}
 	// callee ghosts evaluated at call entry
 	for _, g := range fc.Ghosts {
 		env.vars[g.Name] = env.eval(g.E)
@@ -242,6 +286,10 @@ func (c *FnCtx) callContract(st *State, in ssa.Instruction, cc *ssa.CallCommon, 
 		for _, m := range fc.Modifies {
 			c.havocHeap(st, m)
 		}
+		// the callee may have allocated: the allocation counter may have advanced
+		nr := c.declare("nextRef", sInt)
+		c.assert(le(st.nextRef, nr))
+		st.nextRef = nr
 	}
 	// results
 	var res Val = VTuple{}
@@ -444,7 +492,8 @@ func (c *FnCtx) execCopy(st *State, dst VSlice, src Val) Val {
 // Maps (abstracted: contents unknown unless a contract states otherwise)
 
 func (c *FnCtx) mapLen(st *State, m string) string {
-	n := c.declare("maplen", sInt)
+	// the length is a function of the map and the map heap epoch (every map update havocs M$)
+	n := c.define("maplen", sInt, sel(c.heapGet(st, "M$len", arrSort(sInt)), m))
 	c.assert(le("0", n))
 	return n
 }
@@ -598,6 +647,11 @@ func (e *Engine) ghostCall(env *Env, x ECall) (Val, bool) {
 	case "fdMsg":
 		e.needProto = true
 		return VInt{app("fdMsg", env.eval(x.Args[0]).(VIface).Pay)}, true
+	case "fdOwner": // the FieldDescriptors collection (its identity) a field descriptor was looked up in
+		e.needProto = true
+		return VInt{app("fdOwner", env.eval(x.Args[0]).(VIface).Pay)}, true
+	case "pay": // identity of the object held by an interface value
+		return VInt{env.eval(x.Args[0]).(VIface).Pay}, true
 	case "wrcalls": // number of Write calls made on w
 		id := readerID(env.eval(x.Args[0]))
 		return VInt{sel(c.heapGet(env.st, "G$wr.calls", arrSort(sInt)), id)}, true
